@@ -404,6 +404,10 @@ def decodeVars (jsonDecode : Str → Option Val) (vars : Scope) : Scope :=
     | .str t => if hasPrefix t ['{'] || hasPrefix t ['['] then (match jsonDecode t with | some v => (kv.1, v) | none => kv) else kv
     | _ => kv)
 
+/-- the attributes of one loop instance: `v-for` removed, and the chain directives of a looped `v-else-if` / `v-else` member with it -/
+def loopInstanceAttrs (attrs : List Attr) : List Attr :=
+  removeAttr (removeAttr (removeAttr attrs (S "v-for")) (S "v-else-if")) (S "v-else")
+
 mutual
 
 /-- `evaluate(ctx, nodes)` -/
@@ -427,6 +431,8 @@ def evalList (W : World) : Nat → Ctx → St → List Node → R (List Node)
       else
         let st := if onceHere then { st with seen := st.seen ++ [id] } else st
         if hasAttr attrs (S "v-pre") then prepend [.elem tag attrs kids] (evalList W f ctx st rest)
+        -- a v-else-if / v-else member not consumed by a chain or an empty loop is dropped, also when it carries v-for (fix: looped chain members)
+        else if !hasAttr attrs (S "v-if") && (hasAttr attrs (S "v-else-if") || hasAttr attrs (S "v-else")) then evalList W f ctx st rest
         else if hasAttr attrs (S "v-for") then
           bindR (evalVFor W f ctx st tag attrs kids rest) (fun rs st1 => prepend rs.1 (evalList W f ctx st1 (rest.drop rs.2)))
         else if tag == S "slot" then
@@ -444,7 +450,6 @@ def evalList (W : World) : Nat → Ctx → St → List Node → R (List Node)
                  | none => evalList W f ctx st (rest.drop ps.2)
                  | some st' => bindR (evalAsElement W f ctx st' t a k) (fun res st1 => prepend res (evalList W f ctx st1 (rest.drop ps.2))))
               | _ => evalList W f ctx st (rest.drop ps.2))
-        else if hasAttr attrs (S "v-else-if") || hasAttr attrs (S "v-else") then evalList W f ctx st rest
         else if tag == S "template" then
           bindR (evalTemplate W f ctx st attrs kids) (fun res st1 =>
             prepend (if hasAttr attrs (S "v-keep") then [.elem tag attrs res] else res) (evalList W f ctx st1 rest))
@@ -498,8 +503,8 @@ def evalFor (W : World) : Nat → Ctx → St → Str → List Attr → List Node
     bindE (parseFor expr) (fun vc =>
       bindE (st.stack.resolve W.P.cfg vc.2) (fun coll =>
         match coll with
-        | some (.list _ xs) => evalForItems W f ctx st tag (removeAttr attrs (S "v-for")) kids vc.1 xs 0
-        | some (.map _ kvs) => evalForItems W f ctx st tag (removeAttr attrs (S "v-for")) kids vc.1 (kvs.map (·.2)) 0
+        | some (.list _ xs) => evalForItems W f ctx st tag (loopInstanceAttrs attrs) kids vc.1 xs 0
+        | some (.map _ kvs) => evalForItems W f ctx st tag (loopInstanceAttrs attrs) kids vc.1 (kvs.map (·.2)) 0
         | _ => .ok ([], st)))
 
 def evalForItems (W : World) : Nat → Ctx → St → Str → List Attr → List Node → List Str → List Val → Nat → R (List Node)
